@@ -17,6 +17,14 @@ def main():
         print('lean build', 'ok' if ok else 'FAILED', '%.1fs' % t)
         if not ok:
             sys.exit(1)
+        # every property file as well (they are separate targets: the lemma files of different properties are not
+        # meant to be imported together): a signature change in one property that breaks a re-export in another
+        # (C02 re-exports C03/C04/C06/C07/C08/C17) is seen here, and no check has to compile Lean later.
+        pt = ['NmVerif.Props.C%02d' % i for i in range(1, 21)] + ['NmVerif.Audit']
+        ok2, log2, t2 = runner.lean_build(pt)
+        print('lean property modules', 'ok' if ok2 else 'FAILED (the checks of the failing modules will report it)', '%.1fs' % t2)
+        if not ok2:
+            print(log2[-3000:])
         # warm harness cache for quick tier
         specs = []
         pdir = os.path.join(os.path.dirname(os.path.abspath(__file__)), 'props')
